@@ -22,7 +22,8 @@ PROPS: dict[str, dict[str, Any]] = {
     },
     "C06": {
         "level": "exploration",
-        "sidecars": [],
+        "sidecars": ["contracts/c06.py"],
+        "native_n": {"quick": 1500, "thorough": 30000},
         "bounded": [{"script": "bounded/gate_harness.py", "args": []}],
         "rule": "bounded stand-in, exhaustive in the property's own bound: every gate tree over n <= 5 (thorough 6) distinct events, depth <= 3, operators "
                 "alternating, children = blocks of a set partition (3 + 21 + 243 + 2493 trees for n = 2..5) with its full outcome family, run through the real "
